@@ -5,6 +5,7 @@ package main
 import (
 	"verif/vlib"
 
+	_ "verif/echecks/histconc"
 	_ "verif/echecks/interp"
 	_ "verif/echecks/jobsconc"
 	_ "verif/echecks/npipes"
